@@ -1,13 +1,17 @@
 import TracklibVerif.Lemmas.ExprRpn
 import TracklibVerif.Lemmas.ExprExact
 import TracklibVerif.Lemmas.ExprErr
-import TracklibVerif.Lemmas.ExprPre9
+import TracklibVerif.Lemmas.ExprPre10
 import TracklibVerif.Lemmas.ExprExt
 import TracklibVerif.Lemmas.ExprAgg
+import TracklibVerif.Lemmas.ExprFn
+import TracklibVerif.Lemmas.ExprPrime
 /-! # C02 — algebraic feature expressions evaluate to ordinary arithmetic on the features
 
 Property theorems only (helpers: `Lemmas/Rpn.lean`, `Lemmas/RpnChars.lean`, `Lemmas/Expr.lean`, `Lemmas/ExprRpn.lean`,
-`Lemmas/ExprPointwise.lean`, `Lemmas/ExprErr.lean` (error direction), `Lemmas/ExprPre*.lean` (the rewriting chain)).
+`Lemmas/ExprPointwise.lean`, `Lemmas/ExprErr.lean` (error direction), `Lemmas/ExprPre*.lean` (the rewriting chain),
+`Lemmas/ExprAgg.lean` / `Lemmas/ExprFn.lean` (MIN MAX ARGMIN ARGMAX D I D2 against their documented formulas),
+`Lemmas/ExprPrime.lean` (the `'` shorthand)).
 Models: `Model/Rpn.lean` (token-level `utils.makeRPN`) and `Model/Expr.lean` (the rewriting chain,
 character-level `makeRPN`, `__evaluateRPN` / `__applyOperation`, the operator classes, the purge of
 `Track.operate`). The scalar type `α` is abstract (`Scalar α`): the statements hold for the `Float`
@@ -17,7 +21,13 @@ instance the driver runs as well as for exact arithmetic; no law of arithmetic i
 definitions of core/operators.py at each node (pointwise `+ - * / ^ < >` with the NaN-on-zero rule of
 `Divider`, number∘feature and feature∘number forms, `I D D2 ABS SQRT LOG DIODE SIGN EXP COS SIN TAN`,
 `SUM AVG VAR STD MSE RMSE MAD MIN MAX MEDIAN ARGMIN ARGMAX`); it has no stack, no temporaries and no parser.
-The theorems cover both directions (value: T1–T5, error: T6) and start from the string the user types (T7). -/
+The theorems cover both directions (value: T1–T5, error: T6) and start from the string the user types (T7, with the
+`'` shorthand: T11, and a sign typed directly after a binary `+` / `-`: T12). T8–T10 relate definitions as coded to their
+documented formulas: `MIN` / `MAX` (T8), `ARGMIN` / `ARGMAX` (T9, T9'), `D` / `I` / `D2` (T10).
+
+The model is that of the code after the repairs 5676890 / 2dd86ce (`a/number`, `number/a` are single divisions, coded like
+the other scalar operators; they used to go through a reciprocal) and b728412 (`ARGMIN` / `ARGMAX` take their first index on
+equality with the start value): T5 needs commutativity of `+` and `*` only, T9 holds for every vector that holds a number. -/
 namespace TV.C02
 open TV.Expr TV.Rpn
 
@@ -164,13 +174,15 @@ theorem operate_string_value (tr : Tr α) (e : Ex) (v : Val α)
     doublePrime_id _ hgood]
   exact h
 
-/-- **T5 (tree semantics = ordinary pointwise arithmetic)**: under the four laws of `Laws`
-(`x+s = s+x`, `x*s = s*x`, `x*(1/s) = x/s`, `(1/x)*s = s/x` for non-zero divisors — true in every
-field, with or without a NaN element; *not* exactly true of IEEE doubles, where the last two hold up
-to rounding) the evaluator's semantics of a tree — with its literal folding and its separate
+/-- **T5 (tree semantics = ordinary pointwise arithmetic)**: under the two laws of `Laws`
+(`x+s = s+x`, `x*s = s*x` — the number∘feature forms `sr+`, `sr*` are bound to the feature∘number operators —, true of
+every field and of IEEE doubles) the evaluator's semantics of a tree — with its literal folding and its separate
 feature∘number / number∘feature operator tables — is what one gets by evaluating the tree observation
-by observation with numbers as constant vectors (`denote`). A wrong entry in one of the scalar tables
-(e.g. `sr-` bound to the non-reversed operator) makes this statement false. -/
+by observation with numbers as constant vectors (`denote`): in particular `a/number` and `number/a` are the quotients
+`Divider` computes against a constant vector (since fix 5676890; the pre-fix operators multiplied by a reciprocal and the
+statement needed `x*(1/s) = x/s`, `(1/x)*s = s/x`, which IEEE doubles satisfy up to rounding only, and not at all for a
+subnormal divisor). A wrong entry in one of the scalar tables (e.g. `sr-` bound to the non-reversed operator) makes this
+statement false. -/
 theorem tree_semantics_pointwise (L : Laws α) (tr : Tr α) (hs : WellSized tr) (hn : tr.n ≠ 0) (e : Ex) (v : Val α)
     (hd : denoteM tr e = .ok v) : denote tr e = .ok (v.toVec tr.n) :=
   (denoteM_pointwise L tr hs hn e v hd).1
@@ -353,6 +365,74 @@ theorem aggregate_sentinel (L : OrdLaws α) (T : TopLaws α) (c : List α) (h : 
     minL c = Scalar.inf ∧ maxL c = Scalar.neg Scalar.inf :=
   minmax_of_no_number L T c h
 
+/-- **T9 (`ARGMIN` / `ARGMAX` as coded are the documented `min {t | x(t) = min(x)}` / `min {t | x(t) = max(x)}`)**: under the
+order laws of the comparison and of `==` at the start value (`EqLaws`: an infinity is equal to itself and to nothing else), as
+soon as the vector holds one number — of any magnitude, the infinities included — `ARGMIN` is the index of the *first*
+observation holding exactly the value `MIN` returns — no earlier observation holds it —, and likewise `ARGMAX` with the value
+of `MAX`. With T8 (that value is the minimum / maximum of the numbers of the vector, NaN skipped) this is the documented
+definition at every magnitude. (Since fix b728412; before it the statement needed "`MIN` is strictly below `+inf`":
+`ARGMIN{[nan, inf, inf]}` was 0, the index of the NaN.) -/
+theorem aggregate_argmin_argmax (L : OrdLaws α) (T : TopLaws α) (E : EqLaws α) (c : List α) (w : α) (hw : w ∈ c)
+    (hn : Scalar.isNaN w = false) :
+    (∃ k, argminL c = Scalar.ofNat k ∧ c[k]? = some (minL c) ∧ ∀ j, j < k → c[j]? ≠ some (minL c)) ∧
+    (∃ k, argmaxL c = Scalar.ofNat k ∧ c[k]? = some (maxL c) ∧ ∀ j, j < k → c[j]? ≠ some (maxL c)) :=
+  ⟨argminL_first L T E c w hw hn, argmaxL_first L T E c w hw hn⟩
+
+/-- **T9' (no number at all)**: on an empty or all-NaN vector — the only case T9 leaves out, for which the documented index is
+undefined — no index is ever taken and `ARGMIN` / `ARGMAX` return `0` (`return 0 if idmin is None else idmin`). -/
+theorem aggregate_arg_none (L : OrdLaws α) (T : TopLaws α) (E : EqLaws α) (c : List α) (h : ∀ v ∈ c, Scalar.isNaN v = true) :
+    argminL c = Scalar.ofNat 0 ∧ argmaxL c = Scalar.ofNat 0 :=
+  ⟨argminL_none L T E c h, argmaxL_none L T E c h⟩
+
+/-- **T10 (`D`, `I`, `D2` as coded are their documented recurrences)**, for every scalar type and without any law of
+arithmetic: `D`: `y(0) = NaN`, `y(t) = x(t) - x(t-1)`; `I`: `y(0) = 0`, `y(t) = y(t-1) + x(t)`;
+`D2`: `y(t) = x(t+1) - 2·x(t) + x(t-1)` for `1 ≤ t ≤ n-2`, NaN at both ends; each returns one value per observation. -/
+theorem finite_differences (c : List α) (n : Nat) (hl : c.length = n) (hn : 2 ≤ n) :
+    ((diff c)[0]? = some Scalar.nan ∧ (diff c).length = n ∧
+      ∀ i a b, c[i]? = some a → c[i + 1]? = some b → (diff c)[i + 1]? = some (Scalar.sub b a)) ∧
+    ((integ c)[0]? = some Scalar.zero ∧
+      ∀ i x, c[i + 1]? = some x → (integ c)[i + 1]? = some (Scalar.add ((integ c).getD i Scalar.nan) x)) ∧
+    ((diff2 n c)[0]? = some Scalar.nan ∧ (diff2 n c)[n - 1]? = some Scalar.nan ∧ (diff2 n c).length = n ∧
+      ∀ i a b d, c[i]? = some a → c[i + 1]? = some b → c[i + 2]? = some d →
+        (diff2 n c)[i + 1]? = some (Scalar.add (Scalar.sub d (Scalar.mul Scalar.two b)) a)) := by
+  have hne : c ≠ [] := by intro h; rw [h] at hl; simp at hl; omega
+  obtain ⟨e1, e2, e3⟩ := diff2_ends n c hn hl
+  exact ⟨⟨diff_zero c, by rw [diff_length c hne, hl], diff_succ c⟩, ⟨integ_zero c, integ_succ c⟩,
+    ⟨e1, e2, e3, diff2_mid n c hn⟩⟩
+
+/-- **T11 (the derivative shorthand `a'`, from the source string)**: `__double_prime` turns every name ending with a quote
+into `D{name}/D{t}` (twice: `a''` is `D{D{a}/D{t}}/D{t}`), so `Track.operate` on a source string whose names may carry
+the shorthand does what it does on the postfix tokens of the *unprimed* tree `unprime (unprime (desugar e))` — for the
+statement `lhs=e` and for the value form. T1, T3a–T3d and T6' then give the value / the stored column / the error of
+that tree; on a tree without any quote `unprime` is the identity (`unprime_of_noQuote`) and this is T7. -/
+theorem operate_source_prime (tr : Tr α) (lhs : Str) (e : Sx)
+    (hl : NameOK lhs) (hg : GoodTok lhs) (h : SrcOK e) (hp : PrimeOK (desugar e)) :
+    operate tr (lhs ++ '=' :: src e)
+        = operateTokens tr (lhs :: (Expr.post (unprime (unprime (desugar e))) ++ [['=']])) true
+    ∧ operate tr (src e)
+        = operateTokens tr (outputName :: (Expr.post (unprime (unprime (desugar e))) ++ [['=']])) false :=
+  ⟨operate_source_tokens_prime tr lhs e hl hg h hp, operate_source_value_tokens_prime tr e h hp⟩
+
+/-- … and its value: `operate(src e)` returns the tree semantics of the unprimed tree at every observation and leaves the
+track exactly as it was (`"a'"` evaluates `D{a}/D{t}`). -/
+theorem operate_source_prime_value (tr : Tr α) (e : Sx) (v : Val α) (h : SrcOK e) (hp : PrimeOK (desugar e))
+    (hw : WFx (unprime (unprime (desugar e)))) (hn : tr.n ≠ 0) (hnt : NoTemps tr) (hl : NoLitNames tr)
+    (hd : denoteM tr (unprime (unprime (desugar e))) = .ok v) :
+    operate tr (src e) = (.ok (some (v.toVec tr.n)), tr) := by
+  rw [operate_source_value_tokens_prime tr e h hp]
+  exact operateTokens_value tr _ v hw hn hnt hl hd
+
+/-- **T12 (a sign directly after a binary `+` or `-`: `a+-b`, `a--b`, `a++b`, `a-+b`)**: the last four replacements of
+`__unaryOp` merge two adjacent signs into the sign of their product. If `P o Q` is a printed source string (`pre` empty,
+or `lhs=`) in which `o` is a *binary* `+` or `-` (the character before it is neither `(` nor `{`), then typing the two
+signs `s1 s2` whose product is `o` (`SignPair`: `--` and `++` for `+`, `+-` and `-+` for `-`) in its place does not
+change what `operate` does (one pair per application). -/
+theorem operate_source_sign_pair (tr : Tr α) (pre : Str) (hp : PreOK pre) (e : Sx) (h : SrcOK e) (P Q : Str)
+    (s1 s2 o : Char) (hs : SignPair s1 s2 o) (hS : pre ++ src e = P ++ o :: Q)
+    (hP : ∃ P' c, P = P' ++ [c] ∧ c ≠ '(' ∧ c ≠ '{') :
+    operate tr (P ++ s1 :: s2 :: Q) = operate tr (pre ++ src e) :=
+  operate_sign_pair tr pre hp e h P Q s1 s2 o hs hS hP
+
 /-! ## non-vacuity -/
 
 /-- the laws are those of exact arithmetic: rationals with a NaN element satisfy them -/
@@ -446,7 +526,7 @@ example : operate trEx "(a+b)*2-SUM{(-a)}".toList = (.ok (some [9, 3, 21]), trEx
   rw [sEx_src] at h
   exact h
 
-/-- `c=a/0`: the tree semantics is ZeroDivisionError (scalar division by the literal 0), so is `operate`, and
+/-- `c=a/0`: the tree semantics is ZeroDivisionError (`a[0] / 0` in ScalarDivider's loop), so is `operate`, and
 nothing is stored -/
 def dEx : Sx := .bin '/' (.var ['a']) (.num ['0'])
 example : denoteM trEx (desugar dEx) = .error "err:zerodiv" := by rfl
@@ -497,5 +577,71 @@ example : getitemStr trEx "SUM{a}".toList = operate trEx "SUM{a}".toList :=
   getitem_is_operate trEx _ (by decide +kernel) (by decide +kernel)
 example : (getitemStr trEx "SUM{a}".toList).1.toOption = some (some [3, 3, 3]) ∧ (getitemStr trEx "b".toList).1.toOption = some (some [2, 2, 5]) := by
   decide +kernel
+
+/-- T5 after fix 5676890: `a/2`, `2/a` are the quotients of `Divider` against the constant vector (toy scalar: integer division) -/
+example : denoteM trEx (.bin '/' (.var ['a']) (.num ['2'])) = .ok (.vec [0, -1, 2])
+    ∧ denote trEx (.bin '/' (.var ['a']) (.num ['2'])) = .ok [0, -1, 2]
+    ∧ denoteM trEx (.bin '/' (.num ['8']) (.var ['a'])) = .ok (.vec [8, -4, 2])
+    ∧ denote trEx (.bin '/' (.num ['8']) (.var ['a'])) = .ok [8, -4, 2] := ⟨by rfl, by rfl, by rfl, by rfl⟩
+/-- `2/a` with a zero in `a`: ZeroDivisionError from the division itself; `c` is not stored and no temporary is left -/
+example : (operate (α := Int) ⟨2, [1, 2], [0, 0], [0, 0], [0, 1], [(['a'], [4, 0])]⟩ "c=2/a".toList)
+    = (.error "err:zerodiv", ⟨2, [1, 2], [0, 0], [0, 0], [0, 1], [(['a'], [4, 0])]⟩) := by rfl
+/-- the operator object applied directly: `SCALAR_DIVIDER` by 0 raises at the first observation, `c` having been created at 0
+(like every other scalar operator, fix 2dd86ce) -/
+example : opScal trEx '/' ['a'] 0 ['c'] = (.error "err:zerodiv", { trEx with feats := trEx.feats ++ [(['c'], [0, 0, 0])] })
+    ∧ (opScal trEx '/' ['a'] 2 ['c']).1 = .ok [0, -1, 2]
+    ∧ (opScal trEx '/' ['a'] 2 ['c']).2.feats = trEx.feats ++ [(['c'], [0, -1, 2])] := ⟨by rfl, by rfl, by rfl⟩
+
+/-- T9 on the toy scalar (whose comparison is a strict order): the first of two equal minima / maxima -/
+theorem toy_ord : @OrdLaws Int toy := @OrdLaws.mk Int toy (by intro a; simp [Scalar.lt]) (by
+  intro a b c h1 h2
+  simp only [Scalar.lt, decide_eq_true_eq] at h1 h2 ⊢
+  omega)
+example : argminL ([3, -7, 4, -7] : List Int) = 1 ∧ argmaxL ([3, 9, 4, 9] : List Int) = 1 ∧ minL ([3, -7, 4, -7] : List Int) = -7 := by
+  decide +kernel
+/-- T9 at the start value (fix b728412) on the five-element scalar `0 = -inf < 1 < 2 < 3 = +inf`, `4` = NaN: in
+`[nan, inf, inf]` the first index holding the minimum `+inf` is 1 (the pre-fix loop returned 0, the index of the NaN), in
+`[nan, -inf]` the maximum `-inf` is at index 1; with a smaller number later the strict comparison still wins; nothing but NaN
+gives no index -/
+example : @argLoop (Fin 5) ord5 (fun v m => ord5.lt v m) [4, 3, 3] 0 3 none = some 1
+    ∧ @argLoop (Fin 5) ord5 (fun v m => ord5.lt m v) [4, 0] 0 0 none = some 1
+    ∧ @argLoop (Fin 5) ord5 (fun v m => ord5.lt v m) [4, 3, 1, 3, 1] 0 3 none = some 2
+    ∧ @argLoop (Fin 5) ord5 (fun v m => ord5.lt v m) [4, 4] 0 3 none = none := by decide
+example : @EqLaws (Fin 5) ord5 := @EqLaws.mk (Fin 5) ord5 (by decide) (by decide) (by decide) (by decide)
+theorem toy_eq : @EqLaws Int toy := @EqLaws.mk Int toy (by decide +kernel)
+  (by intro v h; simp only [Scalar.eq, Scalar.inf] at h ⊢; simp at h; omega)
+  (by decide +kernel)
+  (by intro v h; simp only [Scalar.eq, Scalar.inf, Scalar.neg] at h ⊢; simp at h; omega)
+/-- T10: `D`, `I`, `D2` of `[1, 4, 9, 16]` -/
+example : diff ([1, 4, 9, 16] : List Int) = [0, 3, 5, 7] ∧ integ ([1, 4, 9, 16] : List Int) = [0, 4, 13, 29]
+    ∧ diff2 4 ([1, 4, 9, 16] : List Int) = [0, 2, 2, 0] := by decide +kernel
+/-- T11: `a'*10` is `D{a}/D{t}*10` (`a = [1, -2, 4]`, `t = [0, 10, 20]`; the toy division is the integer one, its NaN is 0) -/
+def pEx : Sx := .bin '*' (.var ['a', '\'']) (.num ['1', '0'])
+theorem pEx_src : src pEx = "a'*10".toList := by decide +kernel
+theorem pEx_ok : SrcOK pEx ∧ PrimeOK (desugar pEx) := by
+  refine ⟨by simp only [pEx, SrcOK, NameOK]; decide, ?_⟩
+  simp only [pEx, desugar, PrimeOK, VarOK, GoodTok]
+  refine ⟨by decide, ⟨by decide, by decide⟩, ⟨'0', rfl, by decide⟩⟩
+theorem pEx_unprime : unprime (unprime (desugar pEx))
+    = .bin '*' (.bin '/' (.call ['D'] (.var ['a'])) (.call ['D'] (.var ['t']))) (.num ['1', '0']) := by rfl
+/-- every hypothesis of `operate_source_prime_value` holds on a concrete string and track -/
+example : operate trEx "a'*10".toList = (.ok (some [0, -10, 0]), trEx) := by
+  have h := operate_source_prime_value trEx pEx (.vec [0, -10, 0]) pEx_ok.1 pEx_ok.2
+    (by rw [pEx_unprime]; simp only [WFx]; decide) (by decide) trEx_noTemps trEx_noLit (by rw [pEx_unprime]; rfl)
+  rw [pEx_src] at h
+  exact h
+example : (operate trEx "c=a'*10+b".toList).2.feats = trEx.feats ++ [(['c'], [2, -8, 5])]
+    ∧ (operate trEx "a''".toList).1.toOption = some (some [0, -1, 0]) := by decide +kernel
+
+/-- T12: `a+-b*2` is `a-b*2`, `c=a--b` is `c=a+b` -/
+def mEx : Sx := .bin '-' (.var ['a']) (.bin '*' (.var ['b']) (.num ['2']))
+example : operate trEx "a+-b*2".toList = operate trEx "a-b*2".toList := by
+  have h := operate_source_sign_pair trEx [] preOK_nil mEx (by simp only [mEx, SrcOK, NameOK]; decide) ['a'] "b*2".toList
+    '+' '-' '-' .pm (by decide +kernel) ⟨[], 'a', rfl, by decide, by decide⟩
+  have hs : ([] : Str) ++ src mEx = "a-b*2".toList := by decide +kernel
+  rw [hs] at h
+  exact h
+example : (operate trEx "a+-b*2".toList).1.toOption = some (some [-3, -6, -6])
+    ∧ (operate trEx "c=a--b".toList).2.feats = trEx.feats ++ [(['c'], [3, 0, 9])] := by decide +kernel
 
 end TV.C02
